@@ -24,7 +24,7 @@ REQUIRED = ["trees_built", "trees_with_unpruned_leaf", "trees_fully_pruned", "pr
             "parse_checked", "set:raire", "set:raire_minus_one", "set:random", "set:redundant", "set:inconsistent", "set:empty"]
 ASSUMPTIONS = ["tag comparison is by assertion content (the module identifies an assertion by list.index, which maps exact "
                "duplicates to one index)"]
-N_CASES = {"quick": 48000, "thorough": 800000}
+N_CASES = {"quick": 128000, "thorough": 1024000}
 SETS = ("raire", "raire_minus_one", "random", "redundant", "inconsistent", "empty", "random", "raire")
 
 
